@@ -548,11 +548,13 @@ def py_judge(ids, healthy, obs, free, payloads):
     bad = []
     for label in healthy:
         def p(o):
-            return [(r['kind'], flat_payload(r['kind'], r['payload']) if payloads else None) for r in o['requests'] if r['label'] == label]
+            # what the device receives: one entry per attempt that got through
+            return [(r['kind'], flat_payload(r['kind'], r['payload']) if payloads else None)
+                    for r in o['requests'] if r['label'] == label for ok in r['outcomes'] if ok]
         if p(obs) != p(free):
             bad.append(ids[label])
     if bad:
-        v.append('disturbed:' + ''.join('%d,' % b for b in sorted(bad)))
+        v.append('disturbed:' + ''.join('%d,' % b for b in bad))
     return v
 
 
